@@ -80,8 +80,20 @@ package gcrypto
 //@ func Registry.Unmarshal
 //@   property C14 C09
 //@   ensures short-input-is-an-error: len(b) < 8 ==> result0 == nil && result1 != nil
-//@   modifies heap
+//@   ensures[trusted] decodes-wire-form: result1 == nil ==> result0 == regDec(bytes(b))
+//@   ensures[trusted] no-side-effects: true
+//@   option frame off
 
 //@ func Registry.Decode
 //@   property C14 C09
 //@   modifies heap
+
+// Registry encoding as spec functions (T3/T4): regEnc is the wire form of a key, regDec its inverse up to key equality.
+//@ spec regEnc(key iface) string
+//@ spec regDec(b string) iface
+//@ axiom reg-roundtrip: forall k iface :: {regEnc(k)} keybytes(regDec(regEnc(k))) == keybytes(k) && typeof(regDec(regEnc(k))) == typeof(k)
+
+//@ func Registry.Marshal
+//@   trusted
+//@   ensures wire-form: bytes(result) == regEnc(pubKey)
+//@   modifies nothing
